@@ -315,7 +315,14 @@ def wrapper_delegation():
             out[kind] = "first-fit"
             continue
         src = ast.unparse(fn)
-        if any(isinstance(n, ast.Raise) for n in ast.walk(fn)) and not any(isinstance(n, ast.Return) for n in ast.walk(fn)):
+        loop_returns = [r for l in ast.walk(fn) if isinstance(l, ast.For) and isinstance(l.target, ast.Name)
+                        for r in ast.walk(l) if isinstance(r, ast.Return) and isinstance(r.value, ast.Call)
+                        and isinstance(r.value.func, ast.Attribute) and r.value.func.attr == "serialize"
+                        and isinstance(r.value.func.value, ast.Name) and r.value.func.value.id == l.target.id]
+        if loop_returns:
+            # `for field in <options>: ... return field.serialize(value)`: the option is chosen by the value
+            out[kind] = "first-fit"
+        elif any(isinstance(n, ast.Raise) for n in ast.walk(fn)) and not any(isinstance(n, ast.Return) for n in ast.walk(fn)):
             out[kind] = "raises"
         elif "_not_nonefield" in src:
             init = _find(tree, cls, "__init__")
@@ -619,7 +626,7 @@ def probe_row(op, kind, cat, impl, node_path):
     paths = [list(p) for p in impl.get("shared_paths", [])]
     node_shared = node_path in paths
     below = _descendant_shared(paths, node_path)
-    leaf_site = kind in ("any", "owner", "document", "mapping", "names", "required", "enumValues", "default", "schema",
+    leaf_site = kind in ("any", "owner", "misfit", "document", "mapping", "names", "required", "enumValues", "default", "schema",
                          "fieldState")
     is_input = op in ("construct", "setattr", "deserialize", "derive")
     aliased = node_shared or (leaf_site and kind not in ("any",) and below)
@@ -638,7 +645,7 @@ def mode_of_row(op, kind, row):
     if row["returns"] == "raises":
         return "error"
     is_input = op in ("construct", "setattr", "deserialize", "derive")
-    leaf = kind in ("any", "owner", "document", "mapping", "names", "required", "enumValues", "default", "schema",
+    leaf = kind in ("any", "owner", "misfit", "document", "mapping", "names", "required", "enumValues", "default", "schema",
                     "fieldState")
     if is_input:
         return "alias" if row["retainsArg"] else "shallow" if row["shallow"] else "deep" if leaf or row.get("deep") else "rebuild"
@@ -670,7 +677,7 @@ def probe_all():
     from harness.suites import alias as S
     rows = []
     inner_site = {"any": ("any", "none"), "struct": ("struct", "none"), "inline": ("inline", "none"),
-                  "coll": ("array", "number"), "wrap": ("anyOf", "coll")}
+                  "coll": ("array", "untyped"), "wrap": ("anyOf", "coll")}
     done_all = {}
     for op in S.FIELD_OPS:
         # top-level site of the operation
